@@ -76,7 +76,7 @@ func alignMidSecond() int64 {
 }
 
 // Sequential scenarios, run in parallel (each in its own directory).
-// Case: "<intervalSec> <op> ..."  op: pre | S | X | w<id>:<size> | B (wait for the next interval boundary) | s<ms> | R (directory renamed away) | U (restored)
+// Case: "<intervalSec> <op> ..."  op: pre | S | X | w<id>:<size> | B (wait for the next interval boundary) | P0 / P1 (wait for an even / odd second) | s<ms> | R (directory renamed away) | U (restored)
 // Observation: "<trace of op@unixSecond> | <final listing name=ids;...> | <panics/blocked>"
 func runC13(cases []string, out *bufio.Writer, _ []string) {
 	base, _ := os.MkdirTemp("/var/tmp", "verif-c13-")
@@ -144,6 +144,14 @@ func runC13Case(dir, line string) string {
 			sec := alignMidSecond()
 			guardOp("Stop", func() { a.Stop() })
 			trace = append(trace, fmt.Sprintf("X@%d", sec))
+		case op == "P0" || op == "P1": // wait for a second of the given parity (where the next call falls relative to a 2 s interval)
+			for {
+				sec := alignMidSecond()
+				if fmt.Sprint(sec%2) == op[1:] {
+					break
+				}
+				time.Sleep(time.Until(time.Unix(sec+1, 200_000_000)))
+			}
 		case op == "B":
 			now := time.Now()
 			next := now.Truncate(time.Duration(iv) * time.Second).Add(time.Duration(iv) * time.Second)
